@@ -253,7 +253,9 @@ Print Assumptions C09_readonly_array_refuted.
 
 (* ---------- every history of fragment operations refines the NumPy history on the dense images ----------
    fragment (fop): + - * binary and in-place on float vectors and, row-wise, on float SparseArrays (operand vector /
-   scalar / list, aliasing allowed), + * & ^ | binary and in-place between logical vectors, neg, abs, copy, clear, setflags *)
+   scalar / list / SparseArray of the same shape or with one row; aliasing allowed), + * & ^ | binary and in-place between
+   logical vectors, the six comparisons, v[ix] and v[ix] = scalar / values for int, list, mask, slice, [:], the reductions
+   any/all/sum/mean/max/min with keepdims, neg, abs, copy, copy_like, clear, setflags *)
 Theorem C09_history_refines : forall ops s d, sim s d -> frun s ops ->
   sim (fst (run false s ops)) (np_run d ops).
 Proof. exact history_refines. Qed.
@@ -262,6 +264,84 @@ Theorem C09_history_dense : forall ops s, store_wf s -> frun s ops ->
   sim (fst (run false s ops)) (np_run (abs_store s) ops).
 Proof. exact history_dense. Qed.
 Print Assumptions C09_history_dense.
+
+(* the same, together with everything the operations return (values, new objects, exceptions) *)
+Theorem C09_history_refines_full : forall ops s d, sim s d -> frun s ops ->
+  sim (fst (run false s ops)) (np_run d ops) /\ Forall2 orel (snd (run false s ops)) (np_outs d ops).
+Proof. exact history_refines_full. Qed.
+Print Assumptions C09_history_refines_full.
+
+(* ---------- SparseArray with SparseArray: same shape and one-row broadcast, binary and in-place ---------- *)
+Theorem C09_array_with_array : forall a rows m rows2 m2 n, a <> Div -> Forall2 Rv rows m -> Forall2 Rvn rows2 m2 ->
+  array_bin false (BA a) (map VF rows) (PA rows2) = (do l <- pair_rows (k_sparse false a) rows rows2; Ok (OA l false)) /\
+  array_ibin false (BA a) false (map VF rows) (PA rows2) = (do l <- ipair_rows (k_sparse false a) rows rows2; Ok (map VF l)) /\
+  ((length rows = length rows2 \/ length rows = 1%nat \/ length rows2 = 1%nat) ->
+     rrel (Forall2 Rv) (pair_rows (k_sparse false a) rows rows2) (np_arith22 a m m2)) /\
+  (Forall (fun r => length r = n) rows -> Forall (fun r => length r = n \/ length r = 1%nat) rows2 ->
+   (length rows2 = length rows \/ length rows2 = 1%nat) ->
+     rrel (Forall2 Rv) (ipair_rows (k_sparse false a) rows rows2) (np_iarith22 a m m2)).
+Proof.
+  intros. split; [apply array_bin_aa|]. split; [apply array_ibin_aa|]. split; intros.
+  - now apply pair_rows_refines.
+  - eapply ipair_rows_refines; eauto.
+Qed.
+Print Assumptions C09_array_with_array.
+
+(* ---------- SparseArray reductions along an axis, with and without keepdims ---------- *)
+Theorem C09_red_axis0_refines : forall r rows m keep, Forall2 Rv rows m -> rows <> [] ->
+  rrel osim2 (out_res (red_arrF false r rows (Some 0%nat) keep)) (np_red2 r m 0 keep).
+Proof. exact red_axis0_refines. Qed.
+Print Assumptions C09_red_axis0_refines.
+Theorem C09_red_axis1_refines : forall r rows m keep, Forall2 Rv rows m -> Forall (fun c => c <> []) rows ->
+  rrel osim2 (out_res (red_arrF false r rows (Some 1%nat) keep)) (np_red2 r m 1 keep).
+Proof. exact red_axis1_refines. Qed.
+Print Assumptions C09_red_axis1_refines.
+
+(* ---------- SparseArray __getitem__ / __setitem__ with (row, column) indices ---------- *)
+(* row selections (int list, mask, slice), blocks, columns, elements *)
+Theorem C09_array_get : forall rows M sel idx i j, Forall2 Rv rows M ->
+  (Forall (fun i => (i < length rows)%nat) sel ->
+     exists sr sr', nth_rows rows sel = Ok sr /\ np_take M sel = Ok sr' /\ Forall2 Rv sr sr') /\
+  (Forall (fun i => (i < length rows)%nat) sel -> Forall (fun r => Forall (fun j => (j < length r)%nat) idx) rows ->
+     exists sr sr' B', nth_rows rows sel = Ok sr /\ np_take M sel = Ok sr' /\ mapM (fun r => np_take r idx) sr' = Ok B' /\
+                       Forall2 (Forall2 Qeq) (map (fun r => map (getc r) idx) sr) B') /\
+  (Forall (fun i => (i < length rows)%nat) sel -> Forall (fun r => (j < length r)%nat) rows ->
+     exists sr sr' v', nth_rows rows sel = Ok sr /\ np_take M sel = Ok sr' /\ mapM (fun r => np_get1 r j) sr' = Ok v' /\
+                       Forall2 Qeq (map (fun r => getc r j) sr) v') /\
+  ((i < length rows)%nat -> (j < length (nth i rows []))%nat ->
+     exists r' q, np_get1 M i = Ok r' /\ np_get1 r' j = Ok q /\ getc (nth i rows []) j == q).
+Proof.
+  intros rows M sel idx i j H. repeat split; intros.
+  - now apply nth_rows_refines. - now apply get_block_refines. - now apply get_column_refines. - now apply get_element_refines.
+Qed.
+Print Assumptions C09_array_get.
+(* which of these forms a[m, n] takes for the kinds of m and n *)
+Theorem C09_array_get_forms : forall rows m n,
+  (is_int m = true -> is_int n = true -> (int_of m < length rows)%nat ->
+     arrF_get rows (XPair m n) = GScalF (getc (nth (int_of m) rows []) (int_of n))) /\
+  (is_int m = true -> is_listlike n = true -> (int_of m < length rows)%nat ->
+     arrF_get rows (XPair m n) = GDenseF (map (getc (nth (int_of m) rows [])) (index_list (vsize rows) n))) /\
+  (is_listlike m = true -> is_int n = true -> forall sr, nth_rows rows (index_list (length rows) m) = Ok sr ->
+     arrF_get rows (XPair m n) = GDenseF (map (fun r => getc r (int_of n)) sr)) /\
+  (is_slice m = true -> is_listlike n = true -> forall sr, nth_rows rows (index_list (length rows) m) = Ok sr ->
+     arrF_get rows (XPair m n) = GDense2F (map (fun r => map (getc r) (index_list (length r) n)) sr)).
+Proof. exact arrF_get_forms. Qed.
+Print Assumptions C09_array_get_forms.
+(* a[m, n] = q for every combination addressing a block (m or n an int or a slice): refines NumPy, keeps the shape,
+   leaves the rows that are not selected untouched; inside a selected row only the selected cells change *)
+Theorem C09_array_set_scalar_refines : forall rows M m n q isb, Forall2 Rv rows M ->
+  is_int m || is_slice m || is_slice n = true ->
+  valid_index (length rows) m -> Forall (fun c => valid_index (length c) n) rows ->
+  exists R R', arrF_set false rows false (XPair m n) (PS q isb) = (R, None) /\ np_set2_scalar M m n q = Ok R' /\
+               Forall2 Rv R R' /\ length R = length rows /\
+               forall k, ~ In k (index_list (length rows) m) -> nth_error R k = nth_error rows k.
+Proof. exact array_set_scalar_refines. Qed.
+Print Assumptions C09_array_set_scalar_refines.
+Theorem C09_row_set_scalar_refines : forall c v n q isb, Rv c v -> valid_index (length c) n ->
+  exists r r', vecF_set c n (PS q isb) = Ok r /\ np_setrow v n q = Ok r' /\ Rv r r' /\ length r = length c /\
+               forall j, ~ In j (index_list (length c) n) -> nth_error r j = nth_error c j.
+Proof. exact vecF_set_scalar_refines. Qed.
+Print Assumptions C09_row_set_scalar_refines.
 
 (* ---------- further statements the code does not satisfy (known findings, witnesses replayed every run) ---------- *)
 Theorem C09_broadcast_refuted : ~ broadcast_statement.
@@ -279,6 +359,10 @@ Print Assumptions C09_logical_div_refuted.
 Theorem C09_array_rows_refuted : ~ array_rows_statement.
 Proof. exact array_rows_refuted. Qed.
 Print Assumptions C09_array_rows_refuted.
+(* v[index] = v: the vector is read while it is written; NumPy copies the value first *)
+Theorem C09_setitem_self_refuted : ~ setitem_self_statement.
+Proof. exact setitem_self_refuted. Qed.
+Print Assumptions C09_setitem_self_refuted.
 Theorem C09_mask_rows_refuted : ~ mask_rows_statement.
 Proof. exact mask_rows_refuted. Qed.
 Print Assumptions C09_mask_rows_refuted.
@@ -330,5 +414,30 @@ Proof.
   vm_compute fst.
   eapply frun_cons.
   { eapply (F_libin _ (BA Add) LAdd); [reflexivity | discriminate | vm_compute; reflexivity | vm_compute; reflexivity | left; reflexivity]. }
+  apply frun_nil.
+Qed.
+(* a history through the comparison / indexing / reduction / array-with-array parts of the fragment:
+   a < b ; a[1:3] ; a[[0, 2]] = 7 ; a[mask] = [5, 6] ; a.max(keepdims) ; A + A ; b.copy_like(a) *)
+Definition exOps3 : list xop :=
+  [XOp (OBin (BC CLt) 0 (AObj 1)); XOp (OGet 0 (ISlice 1 3 1)); XOp (OSet 0 (IList [0; 2]%nat) (AScal 7));
+   XOp (OSet 0 (IMask [true; false; true]) (AArr [5; 6])); XOp (ORed RMax 0 None true);
+   XOp (OBin (BA Add) 3 (AObj 3)); XOp (OCopyLike 1 (CObj 0))].
+Example C09_ex_frun_more : frun exS exOps3.
+Proof.
+  unfold exOps3.
+  eapply frun_cons. { eapply F_cmp; [vm_compute; reflexivity|]. cbn. repeat eexists; try (vm_compute; reflexivity); discriminate. }
+  vm_compute fst.
+  eapply frun_cons. { eapply F_get; [vm_compute; reflexivity|]. cbn. lia. }
+  vm_compute fst.
+  eapply frun_cons. { eapply F_set_scalar; [vm_compute; reflexivity|]. cbn. repeat constructor. }
+  vm_compute fst.
+  eapply frun_cons. { eapply F_set_values; [vm_compute; reflexivity| reflexivity | exact I | reflexivity | cbn; lia]. }
+  vm_compute fst.
+  eapply frun_cons. { eapply F_red; [vm_compute; reflexivity | discriminate | left; reflexivity]. }
+  vm_compute fst.
+  eapply frun_cons.
+  { eapply F_aabin; [discriminate | vm_compute; reflexivity | vm_compute; reflexivity | repeat constructor; discriminate | left; reflexivity]. }
+  vm_compute fst.
+  eapply frun_cons. { eapply F_copylike; [vm_compute; reflexivity | vm_compute; reflexivity | reflexivity]. }
   apply frun_nil.
 Qed.
